@@ -124,3 +124,37 @@ SPECS["C08"] = dict(
                 "the real code; algebraic identities proven entry-wise by the SMT solver; rounding-level clauses are outside the claim"),
     level_note="compositional via kernel contracts; rounding, underflow thresholds and n above the bound not covered; trusted: g++, Eigen, z3/cvc5, symx",
 )
+
+
+# ------------------------------------------------------------------------------------------------
+# C10: Bunch-Kaufman LDLT
+def c10_jobs(tier):
+    if tier == "quick":
+        return [dict(harness="c10_bkldlt", pattern=r"^bk/n[12]/|^bk-lower-vs-upper/n[12]$|^bk-reuse|^wrapper/.*/n[12]$|^bk-complex/n[12]/", label="n<=2, all layouts, real+complex", deadline=200),
+                dict(harness="c10_bkldlt", pattern=r"^bk/n3/(lower|upper)/colmajor/shift|^bk/n3/upper/rowmajor/shift", label="n=3 real", deadline=280)]
+    return [dict(harness="c10_bkldlt", pattern=r"^bk/n[123]/|^bk-lower-vs-upper/n[123]$|^bk-reuse|^wrapper/|^bk-complex/n[12]/", label="n<=3 real, n<=2 complex, wrappers", deadline=1500),
+            dict(harness="c10_bkldlt", pattern=r"^bk-complex/n3/", label="n=3 complex Hermitian", deadline=2400, cap=(20, 120)),
+            dict(harness="c10_bkldlt", pattern=r"^bk/n4/lower/colmajor/shift", label="n=4 real", deadline=3000, cap=(20, 120))]
+
+
+SPECS["C10"] = dict(
+    run=std_run, jobs=c10_jobs,
+    explanation=("Real BKLDLT<S> (compute, copy_data, permutate_mat, find_lambda/find_sigma, pivoting_1x1/2x2, interchange_rows, gaussian_elimination_1x1/2x2, "
+                 "solve_left_2x2, solve_inplace, solve_inplace_2x2, compress_permutation) executed on a fully symbolic matrix: the designated triangle holds the "
+                 "symmetric/Hermitian matrix, every entry of the other triangle is an independent junk symbol, shift and right-hand side symbolic. Every pivoting "
+                 "decision is a fork decided by the solver, so the paths partition all matrices of that size. Per path z3 proves: info() is Successful or "
+                 "NumericalIssue; Successful => (A_tri - sigma I) x = b entry-wise and no divisor can be zero; NumericalIssue => det(A - sigma I) = 0 (only exactly "
+                 "singular matrices are refused); the solution mentions no junk symbol; lower and upper triangle of the same matrix give identical results; column- and "
+                 "row-major input; solve_inplace on a segment; a reused object reports its own status; DenseSymShiftSolve::set_shift throws invalid_argument only for "
+                 "singular matrices and its perform_op solves the shifted system."),
+    functions=["Spectra::BKLDLT<sym::Real> and BKLDLT<std::complex<sym::Real>> (all members)", "Spectra::DenseSymShiftSolve<sym::Real, Lower|Upper>::set_shift, perform_op"],
+    bounds={"quick": {"real": "n=1,2 all layouts; n=3 three layouts", "complex Hermitian": "n=1,2 all four layouts", "wrappers": "n=1,2"},
+            "thorough": {"real": "n<=3 all layouts, n=4 lower/col-major", "complex Hermitian": "n<=3", "wrappers": "n<=3"}},
+    outside=[ROUNDING, "the c*n*eps residual bound and the growth factor", "sizes above the bound"],
+    assumptions=["exact real arithmetic"],
+    policy=dict(events="violation", allow_cut=False),
+    technique="symbolic execution of the real BKLDLT template on symbolic matrices, all pivoting paths; z3/cvc5 NRA verdict per residual entry and per singularity claim",
+    level_text=("bounded symbolic verification in exact real arithmetic: every symmetric (Hermitian) matrix, shift and right-hand side of size n<=3 (thorough 4 / complex 3), "
+                "every pivoting path of the real code; residual identities and the 'refused only if singular' claim proven by the SMT solver"),
+    level_note="rounding and sizes above the bound not covered; trusted: g++, Eigen, z3/cvc5, symx",
+)
